@@ -24,7 +24,9 @@ type C09Peer struct {
 
 type C09Scenario struct {
 	// Metrics: the Exchange is built WithMetrics (a configuration that must not change any result)
-	Metrics  bool      `json:"metrics,omitempty"`
+	Metrics bool `json:"metrics,omitempty"`
+	// Restart: the Exchange is stopped and started again before it is used
+	Restart  bool      `json:"restart,omitempty"`
 	Trusted  bool      `json:"trusted_head"` // WithTrustedHead mode
 	Peers    []C09Peer `json:"peers"`
 	Deadline bool      `json:"deadline"`            // caller ctx with a 3s deadline (else 60s)
@@ -65,6 +67,7 @@ func genC09(t *rapid.T) C09Scenario {
 		s.Peers = append(s.Peers, p)
 	}
 	s.Metrics = rapid.IntRange(0, 3).Draw(t, "metrics") == 0
+	s.Restart = rapid.IntRange(0, 3).Draw(t, "restart") == 0
 	return s
 }
 
@@ -84,8 +87,8 @@ func c09Quorum(n int) int {
 }
 
 func runC09(t *testing.T, s C09Scenario) (res Result) {
-	exchangeMetrics = s.Metrics
-	defer func() { exchangeMetrics = false }()
+	exchangeMetrics, exchangeRestart = s.Metrics, s.Restart
+	defer func() { exchangeMetrics, exchangeRestart = false, false }()
 	bubble(t, func() {
 		spec := vh.ChainSpec{ChainID: "c09", N: 60, StartMs: -1_000_000, Spans: []uint64{10}}
 		if s.SoftType {
